@@ -332,7 +332,11 @@ func (w *hWorld) exec(o hOp) (out string, panicked string) {
 		{
 			_, _, psyms := biscuit.VerifTokenBlocks(w.tokens[w.bbParent[w.blkFrom[o.J]]])
 			_, _, tsyms := biscuit.VerifTokenBlocks(w.tokens[o.I])
-			w.tokForeign = append(w.tokForeign, w.tokForeign[o.I] || strings.Join(psyms, "\x00") != strings.Join(tsyms, "\x00"))
+			same := len(psyms) == len(tsyms)
+			for k := 0; same && k < len(psyms); k++ {
+				same = psyms[k] == tsyms[k] // (not a Join: the empty string is a legal symbol)
+			}
+			w.tokForeign = append(w.tokForeign, w.tokForeign[o.I] || !same)
 			w.tokReuse = append(w.tokReuse, w.tokReuse[o.I] || w.blkBuilt[w.blkFrom[o.J]] > 1)
 		}
 		w.registerSig(tok)
@@ -561,14 +565,16 @@ func genHistoryHooked(rng *RNG, w *hWorld, nOps int, allowRebuild bool, hook fun
 	// fork phase: siblings derived from a parent deep enough for its slices to have spare
 	// capacity (3, 5 or 6 blocks) — the first sibling must not be affected by the second
 	if nTok > 0 {
-		best := 0
+		// the parent of the fork: the deepest token issued over the default table (the phase reloads
+		// with the default table) that carries no foreign or twice-built block
+		best := -1
 		for i := range w.tokens {
-			if len(w.tokContent[i]) > len(w.tokContent[best]) && len(w.tokBase[i]) == 0 && !w.tokForeign[i] {
+			if len(w.tokBase[i]) == 0 && !w.tokForeign[i] && !w.tokReuse[i] && (best < 0 || len(w.tokContent[i]) > len(w.tokContent[best])) {
 				best = i
 			}
 		}
 		sealedTok := func(i int) bool { return containerOf(w.tokens[i]).ProofKind != 0 }
-		if !sealedTok(best) {
+		if best >= 0 && !sealedTok(best) {
 			want := []int{3, 5, 6}[rng.Intn(3)]
 			grow := func(parent int) int {
 				emit(hOp{Kind: "createblock", I: parent})
